@@ -18,11 +18,32 @@ def extra_jobs(tier, seed):
         mdl = _model.Model()
         addrs = AG.address_corpus("quick", seed, mdl)[seed % 5::5]
         jobs = []
+        jobs.append((w_aligned, (exe, addrs[1::2][:4000])))
         for code, buf in ((-100, 0), (-100, 1), (-205, 0), (-304, 1), (-209, 0)):
             sel = addrs[(abs(code) + buf) % 3::3]
             jobs.append((w_forced, (wexe, sel, opts, code, buf)))
         return jobs
     return f
+
+
+def w_aligned(exe, addrs):
+    """Same addresses, once in allocator-aligned blocks and once at 16 different offsets from that alignment: identical records."""
+    from .. import driver, build
+    import collections
+    part = {"counters": collections.Counter(), "viol": [], "samples": [], "distinct": 0, "sets": {}}
+    lines = [driver.A_line(a, sections=1 | 2 | 4) for a in addrs]
+    a0, c0 = driver.run_lines_resilient(exe, lines)
+    a1, c1 = driver.run_lines_resilient(exe, lines, env=build.san_env({"VERIF_ALIGN": "1"}))
+    for idx, sig, err in c1:
+        part["viol"].append(("alignment/crash/%s" % sig, {"address": core.b2s(addrs[idx]) if idx >= 0 else ""}, {"stderr": err[-1500:]}))
+    for a, x, y in zip(addrs, a0, a1):
+        if x is None or y is None:
+            continue
+        part["counters"]["alignment.compared"] += 1
+        if x != y:
+            part["viol"].append(("alignment/outcome-depends-on-position-in-memory", {"address": core.b2s(a), "hex": a.hex()}, {"aligned": str(x)[:300], "offset": str(y)[:300]}))
+    part["distinct"] = len(addrs)
+    return {PROP: part}
 
 
 def w_forced(wexe, addrs, opts, code, buf):
